@@ -316,6 +316,14 @@ def _split_conditional_return(p, ret=None, extra=()):
     from ..norm import mk_not
 
     ret = p.ret if ret is None else ret
+    if ret is not None and ret[0] == "fstr":
+        parts = _flatten_fstr(ret[1])
+        k = next((i for i, x in enumerate(parts) if isinstance(x, tuple) and x and x[0] == "ite" and "isinstance(value" in show(x[1])), None)
+        if k is not None:  # '...; {v if numeric else quoted(v)})': one formula per case
+            c, a, b = parts[k][1], parts[k][2], parts[k][3]
+            yield from _split_conditional_return(p, ("fstr", tuple(parts[:k] + [a] + parts[k + 1:])), tuple(extra) + (c,))
+            yield from _split_conditional_return(p, ("fstr", tuple(parts[:k] + [b] + parts[k + 1:])), tuple(extra) + (mk_not(c),))
+            return
     if ret is not None and ret[0] == "ite":
         yield from _split_conditional_return(p, ret[2], tuple(extra) + (ret[1],))
         yield from _split_conditional_return(p, ret[3], tuple(extra) + (mk_not(ret[1]),))
